@@ -300,6 +300,18 @@ class Check:
         c["cases"] += n
         c["mismatches"] += mismatches
 
+    def mark(self, case):
+        """record the case about to be run against the real code (read back if the process crashes)"""
+        path = os.environ.get("VERIF_MARK_FILE")
+        if path:
+            try:
+                with open(path, "w") as f:
+                    json.dump(case, f, default=str)
+            except OSError:
+                pass
+        if os.environ.get("VERIF_SELFTEST_CRASH") == self.prop:  # self-test of the crash path only
+            os.kill(os.getpid(), 11)
+
     # --- outcomes -----------------------------------------------------------------------------
     def known(self, fid: str, what: str):
         """The unchanged code violates the property on a case listed in KNOWN_FINDINGS.json."""
